@@ -83,8 +83,15 @@ pub fn residue_class(rows: &[HRow], model: &MResult, msg: &str) -> Option<&'stat
 }
 pub fn is_chain_residue(rows: &[HRow], model: &MResult, msg: &str) -> bool { residue_class(rows, model, msg).is_some() }
 
+/// Root cause of F-04d really present: some security has a split for everyone and a per-affiliate split whose trade dates are
+/// at most one day apart (the refusal's own condition).  The message alone is not enough: a refusal with this text on a
+/// history without such a pair is a different defect.
+pub fn split_proximity_present(rows: &[HRow]) -> bool {
+    rows.iter().any(|g| g.is_global_split() && rows.iter().any(|p| p.act == Act::Split && !p.is_global_split() && p.sec == g.sec && (p.td - g.td).whole_days().abs() <= 1))
+}
+
 pub fn spurious_rejection_verdict(sec: &str, msg: &str, csv: &str, rows: &[HRow], model: &MResult) -> Verdict {
-    if msg.contains("Found non-global split") && msg.contains("near global split") { return known_or_fail("F-04d", format!("history of {sec} contains none of the listed causes but is refused: {msg}\n{csv}")); }
+    if msg.contains("Found non-global split") && msg.contains("near global split") && split_proximity_present(rows) { return known_or_fail("F-04d", format!("history of {sec} contains none of the listed causes but is refused: {msg}\n{csv}")); }
     if let Some(id) = residue_class(rows, model, msg) { return known_or_fail(id, format!("valid history of {sec} rejected because a quantity that is exact in rational arithmetic carries ~1e-28 of rounding residue after a split with a non-terminating factor: {msg}\n{csv}")); }
     Verdict::Fail(format!("history of {sec} contains none of the listed causes but was rejected: {msg}\n{csv}"))
 }
@@ -96,7 +103,7 @@ pub fn check_accept(case: &LedgerCase, obs: &mut Obs) -> Verdict {
         Ok(r) => r,
         Err(RunErr::Panic(p)) => return classify_panic(&p, csv),
         Err(RunErr::Run(e)) => {
-            if e.contains("Found non-global split") { return known_or_fail("F-04d", format!("whole run refused: {e}\n{csv}")); }
+            if e.contains("Found non-global split") && split_proximity_present(&case.rows) { return known_or_fail("F-04d", format!("whole run refused: {e}\n{csv}")); }
             return Verdict::Fail(format!("generated rows all parse but the run failed as a whole: {e}\n{csv}"));
         }
         Err(RunErr::BadInit(e)) => return Verdict::Fail(format!("harness produced a bad opening position: {e}")),
@@ -267,7 +274,7 @@ pub fn check_reject(c: &RejectCase, obs: &mut Obs) -> Verdict {
         Ok(r) => r,
         Err(RunErr::Panic(p)) => return classify_panic(&p, csv),
         Err(RunErr::Run(e)) => {
-            if e.contains("Found non-global split") { return known_or_fail("F-04d", format!("whole run refused: {e}\n{csv}")); }
+            if e.contains("Found non-global split") && split_proximity_present(&c.ledger.rows) { return known_or_fail("F-04d", format!("whole run refused: {e}\n{csv}")); }
             return Verdict::Fail(format!("rows all parse but the run failed as a whole: {e}\n{csv}"));
         }
         Err(RunErr::BadInit(e)) => return Verdict::Fail(format!("bad opening position from the harness: {e}")),
@@ -341,7 +348,7 @@ fn accept_strategy(tier: Tier) -> BoxedStrategy<LedgerCase> { ledger_strategy(pa
 pub fn def() -> PropDef {
     let mut d = PropDef::new("C04", "(accept) valid histories from the model-guided generator must not be rejected and every row must satisfy the balance invariants; (reject) the same histories with exactly one listed cause planted at a chosen row (over-sale by epsilon / by a lot / covered by other affiliates, RoC > ACB, RoC or SfLA on a registered affiliate, whole-number reverse split leaving a fraction, declared SfL on a non-loss, declared SfL off by > 0.001) must be rejected with a message naming that row's trade date, showing exactly the model's ledger prefix, excluded from all totals, in text / CSV-writer / render-model modes. Non-trivial = rejected history whose offending row is not the first row of its security, or accepted history with a sale of the entire holding after a split. Distinct = distinct case content.");
     d.assumptions = vec!["reference model decides which histories contain a listed cause", "a split for all affiliates is never generated within three days of a per-affiliate split of the same security (the tool refuses that combination by design; finding F-04d)", "the CSV-directory mode is exercised through CsvWriter into a buffer plus the error stream; the real binary is covered by the C09 sub-check"];
-    d.subs.push(Box::new(Sub::<LedgerCase> { name: "accept", cases_quick: 15_000, cases_thorough: 600_000, strategy: Box::new(accept_strategy), to_json: LedgerCase::to_json, from_json: LedgerCase::from_json, check: check_accept }));
-    d.subs.push(Box::new(Sub::<RejectCase> { name: "reject", cases_quick: 10_000, cases_thorough: 400_000, strategy: Box::new(reject_strategy), to_json: RejectCase::to_json, from_json: RejectCase::from_json, check: check_reject }));
+    d.subs.push(Box::new(Sub::<LedgerCase> { name: "accept", cases_quick: 30_000, cases_thorough: 600_000, strategy: Box::new(accept_strategy), to_json: LedgerCase::to_json, from_json: LedgerCase::from_json, check: check_accept }));
+    d.subs.push(Box::new(Sub::<RejectCase> { name: "reject", cases_quick: 20_000, cases_thorough: 400_000, strategy: Box::new(reject_strategy), to_json: RejectCase::to_json, from_json: RejectCase::from_json, check: check_reject }));
     d
 }
